@@ -39,7 +39,7 @@ func (c09Prop) Race() bool    { return false }
 
 func (c09Prop) Count(tier string) int {
 	if tier == "thorough" {
-		return 120000
+		return 1000000
 	}
 	return 2500
 }
